@@ -347,6 +347,19 @@ class IntervalLt(Contract):
             return False, f"{a!r} < {b!r} returned {r} but the contract demands AssertionError"
         ok = bool(self.ensures(A, r))
         msg = f"{a!r} < {b!r} = {r}"
+        # the other comparison operators (derived by functools.total_ordering unless the class defines them): for a pair the
+        # order decides -- exactly one of <, ==, > by the contract of __lt__ -- they must agree with it (C08: 'exactly one of
+        # <, =, > holds')
+        B = Args({"self": b, "other": a})
+        if ok and not bool(self.raises["AssertionError"](B)):
+            lt_ab, lt_ba, eq = bool(code_lt(a, b)), bool(code_lt(b, a)), bool(ti_eq(a, b))
+            if lt_ab + lt_ba + eq == 1:
+                got = {"==": a == b, ">": a > b, "<=": a <= b, ">=": a >= b, "!=": a != b}
+                exp = {"==": eq, ">": lt_ba, "<=": lt_ab or eq, ">=": lt_ba or eq, "!=": not eq}
+                wrong = [f"{a!r} {op} {b!r} is {got[op]} (expected {exp[op]})" for op in got if bool(got[op]) != exp[op]]
+                if wrong:
+                    ok = False
+                    msg += "; " + "; ".join(wrong)
         if ok and r and not k_mixed(a, b):
             ts = [tuple(m["t"])] if "t" in m and len(m["t"]) == a.pre_length and all(x >= 0 for x in m["t"]) else []
             ts += [tuple([0] * a.pre_length), tuple(range(7, 7 + a.pre_length))]
